@@ -263,6 +263,14 @@ fn main() {
                 em.case(case, &res, nt);
             }
         }
+        "c02cache" => {
+            for case in from..to {
+                prog(case, "c02cache");
+                let res = routes::c02_cache_case(seed, case);
+                let nt = res.feat("variant") <= 1;
+                em.case(case, &res, nt);
+            }
+        }
         "c14mesh" => {
             for case in from..to {
                 prog(case, "c14mesh");
